@@ -45,3 +45,49 @@ def register(w):
       ],
       assumes=['parser.parse_expression is modelled as a pure function of its text (a None constant node)',
                'parse_expression("None") is not the None object']))
+
+  # ---- instantiate: closure cells are matched to the factory's free variables BY NAME ---------------------
+  w.add_class(ClassInfo('_PythonFnFactory', module='malt.pyct.transpiler', fields={
+      '_name': 'Any', '_freevars': 'Seq[str]', '_extra_locals': 'Any', '_unbound_factory': 'Opt[PyCallable]',
+      'module': 'Any', 'source_map': 'Any'}))
+  w.add_class(ClassInfo('CodeObject', fields={'co_freevars': 'Seq[str]'}))
+  w.classes['PyCallable'].fields['__code__'] = __import__('pvc.core', fromlist=['parse_type']).parse_type('CodeObject')
+  w.classes['PyCallable'].fields['__closure__'] = __import__('pvc.core', fromlist=['parse_type']).parse_type('Any')
+  w.add(Contract(
+      'types.FunctionType', abstract=True, serves=['C09'],
+      ghost={'params': ['code', 'globals', 'name', 'argdefs', 'closure']},
+      types={'return': 'PyCallable'}, modifies=[],
+      ensures=['fresh(result)', 'result.__code__ is code', 'result.__globals__ is globals', 'result.__closure__ is closure'],
+      assumes=['T: types.FunctionType builds a function object over exactly the given code, globals and closure cells']))
+  NAMES = 'self._unbound_factory.__code__.co_freevars'
+  w.add(Contract(
+      'malt.pyct.transpiler._PythonFnFactory.instantiate', serves=['C09'],
+      types={'globals_': 'Any', 'closure': 'Seq[Any]', 'defaults': 'Any', 'kwdefaults': 'Any'},
+      pure={'str.format': 'str'},
+      requires=['self._unbound_factory is not None',
+                # the factory was created for this function: one cell per recorded free variable, recorded names are
+                # distinct (co_freevars of the original function) and the factory code references a subset of them
+                'len(self._freevars) == len(closure)',
+                'forall(lambda a, b: implies(0 <= a and a < b and b < len(self._freevars), self._freevars[a] != self._freevars[b]), "int", "int")',
+                'forall(lambda i: implies(0 <= i and i < len(%s), exists(lambda j: 0 <= j and j < len(self._freevars) and '
+                'self._freevars[j] == %s[i], "int")), "int")' % (NAMES, NAMES)],
+      raises={'ValueError': 'len(%s) != len(closure)' % NAMES, 'OpaqueException': True},
+      modifies=['*'],
+      opaque_preserves=['unchanged(factory_closure)', 'unchanged(closure)', 'bound_factory.__closure__ is old(bound_factory.__closure__)',
+                        'bound_factory.__globals__ is old(bound_factory.__globals__)',
+                        'bound_factory.__code__ is old(bound_factory.__code__)'],
+      ensures=[
+          # property C09: "shares the same closure cells": cell i of the new function's factory is the ORIGINAL cell of
+          # the variable with the same name, whatever the order and number of names the generated code references
+          'final_bound_factory.__closure__ is final_factory_closure',
+          'len(final_factory_closure) == len(closure)',
+          'forall(lambda i, j: implies(0 <= i and i < len(old(%s)) and 0 <= j and j < len(closure) and '
+          'old(self._freevars[j]) == old(%s[i]), final_factory_closure[i] is old(closure[j])), "int", "int")' % (NAMES, NAMES),
+          # "resolves global names in the same module dictionary"
+          'final_bound_factory.__globals__ is globals_',
+          'final_bound_factory.__code__ is old(self._unbound_factory.__code__)',
+          # "default and keyword-only default values are the same objects" -- re-attached unconditionally
+          'result.__defaults__ is defaults', 'result.__kwdefaults__ is kwdefaults'],
+      assumes=['T: tuples are immutable and the __code__/__globals__/__closure__ cannot be rebound by the call '
+               'of the factory (opaque_preserves)',
+               'the new function is what the bound factory returns (opaque call)']))
